@@ -308,3 +308,49 @@ VARIANTS = [
             '        val = min(max(val, lower), upper)\n',
      'new': '        delta = upper - lower\n\n        val = min(max(val, lower), upper)\n'},
 ]
+
+# round 9: hand-written scaling adapters, arithmetic in the coordinate object's projection
+VARIANTS = VARIANTS + [
+    {'name': 'R1 new scaling adapter truncates the quotient when encoding',
+     'file': 'hippolyzer/lib/base/templates.py',
+     'expect': 'C10.R1',
+     'old': 'class DateAdapter(se.Adapter):\n',
+     'new': 'class _CentiAdapter(se.Adapter):\n'
+            '    def __init__(self):\n'
+            '        super().__init__(None)\n'
+            '\n'
+            '    def decode(self, val: Any, ctx: Optional[se.ParseContext], pod: bool = False) -> Any:\n'
+            '        return val * 0.01\n'
+            '\n'
+            '    def encode(self, val: Any, ctx: Optional[se.ParseContext]) -> Any:\n'
+            '        return int(val / 0.01)\n'
+            '\n'
+            '\n'
+            'class DateAdapter(se.Adapter):\n'},
+    {'name': 'P R1 new scaling adapter rounds to nearest',
+     'file': 'hippolyzer/lib/base/templates.py',
+     'expect': 'silent',
+     'old': 'class DateAdapter(se.Adapter):\n',
+     'new': 'class _CentiAdapter(se.Adapter):\n'
+            '    def __init__(self):\n'
+            '        super().__init__(None)\n'
+            '\n'
+            '    def decode(self, val: Any, ctx: Optional[se.ParseContext], pod: bool = False) -> Any:\n'
+            '        return val * 0.01\n'
+            '\n'
+            '    def encode(self, val: Any, ctx: Optional[se.ParseContext]) -> Any:\n'
+            '        return round(val / 0.01)\n'
+            '\n'
+            '\n'
+            'class DateAdapter(se.Adapter):\n'},
+    {'name': 'R1 Quaternion.data(3) rescales the components it hands to the packed form',
+     'file': 'hippolyzer/lib/base/datatypes.py',
+     'expect': 'C10.R1',
+     'old': '            if self.W < 0:\n'
+            '                return -self.X, -self.Y, -self.Z\n'
+            '            return self.X, self.Y, self.Z\n',
+     'new': '            scale = 1.0 / max(abs(self.X), abs(self.Y), abs(self.Z), abs(self.W), 1.0)\n'
+            '            if self.W < 0:\n'
+            '                return -self.X * scale, -self.Y * scale, -self.Z * scale\n'
+            '            return self.X * scale, self.Y * scale, self.Z * scale\n'},
+]
